@@ -356,82 +356,93 @@ end through
 /-! ### who owns the stage derivatives (right-hand sides that reuse one work array)
 
 `rk4IterBuf shared` (KawinV.Solver, Part 4) is RK4Iterator with the reads of k1..k4 resolved for a
-right-hand side that evaluates into ONE work array and returns it on every call.  `shared = false`:
-the flatten function between model and iterator allocates (np.hstack in GenericModel.flattenX,
-np.concatenate in Coupler.flattenX — `Flatten.flattenOwnership = fresh`, measured on the real
-functions on every run); then the step is the Runge-Kutta step and everything above applies.
-`shared = true` (identity flatten of a bare DESolver, a reshape view, or a "fast path" that returns
-`X[0]`): k1 is read after call 2 and has the value of k2 — a different, first-order method. -/
+right-hand side that evaluates into ONE work array and returns it on every call; `shared` says
+whether the flatten function between model and iterator hands that array on (identity flatten of a
+bare DESolver, a reshape view) or allocates (np.hstack in GenericModel.flattenX, np.concatenate in
+Coupler.flattenX — `Flatten.flattenOwnership = fresh`; measured on the real functions on every
+run).  The iterator takes a private copy of k1 before the second call (Iterators.py 71), so the
+step is the Runge-Kutta step of the generated tableau for BOTH values of `shared`.
+`rk4IterBufNoCopy` is the iterator without that copy (the code before repair be993b1): through a
+copying flatten it is still the Runge-Kutta step, with a shared array k1 is read after call 2 and
+has the value of k2 — a different, first-order method. -/
 
 section buf
 
-/-- with a copying flatten the work-array reuse is invisible: same result, same calls, for every
-right-hand side, state type and vector operations -/
-theorem rk4IterBuf_fresh {V : Type} (o : VecOps α V) (f : α → V → V) (dt t : α) (x : V) :
-    rk4IterBuf false o f dt t x = rk4Iter o f dt t x := rfl
+/-- **work-array reuse is invisible**: same result, same calls as the plain iterator, for every
+right-hand side, state type, vector operations and for both kinds of flatten function -/
+theorem rk4IterBuf_any {V : Type} (sh : Bool) (o : VecOps α V) (f : α → V → V) (dt t : α) (x : V) :
+    rk4IterBuf sh o f dt t x = rk4Iter o f dt t x := by
+  cases sh <;> rfl
 
-/-- the Euler iterator consumes its single derivative before any other call: reuse never shows -/
+/-- the Euler iterator consumes its single derivative before any other call -/
 theorem eulerIterBuf_any {V : Type} (sh : Bool) (o : VecOps α V) (f : α → V → V) (dt t : α) (x : V) :
-    eulerIterBuf sh o f dt t x = eulerIter o f dt t x := rfl
+    eulerIterBuf sh o f dt t x = eulerIter o f dt t x := by
+  cases sh <;> rfl
 
-/-- **through GenericModel.flattenX** (np.hstack — also for a state list that holds a single 1-D
-array) **and Coupler.flattenX** (np.concatenate) the iterator owns its stage derivatives -/
-theorem rk4_default_flatten {β V : Type} (X : List (Flatten.Item β)) (Xs : List (List (Flatten.Item β)))
-    (o : VecOps α V) (f : α → V → V) (dt t : α) (x : V) :
-    rk4IterBuf (Flatten.flattenOwnership X).isShared o f dt t x = rk4Iter o f dt t x ∧
-    rk4IterBuf (Flatten.flattenCOwnership Xs).isShared o f dt t x = rk4Iter o f dt t x := ⟨rfl, rfl⟩
+/-- hence a model that reuses its work array is stepped with the generated tableau (all order
+conditions), whatever flatten function sits between it and the iterator -/
+theorem rk4IterBuf_eq_rkStep (sh : Bool) (f : α → α → α) (dt t x : α) :
+    (rk4IterBuf sh scalarOps f dt t x).xnew = rkStep rk4T f t x dt := by
+  rw [rk4IterBuf_any, rk4Iter_eq_rkStep]
 
-/-- hence: a model that reuses its work array, solved through the default flatten, is stepped with
-the generated tableau (all order conditions) -/
-theorem rk4IterBuf_fresh_eq_rkStep (f : α → α → α) (dt t x : α) :
-    (rk4IterBuf false scalarOps f dt t x).xnew = rkStep rk4T f t x dt := by
-  rw [rk4IterBuf_fresh, rk4Iter_eq_rkStep]
-
-/-- the stage times do not depend on who owns the arrays -/
 theorem rk4IterBuf_call_times {V : Type} (sh : Bool) (o : VecOps α V) (f : α → V → V) (dt t : α) (x : V) :
-    (rk4IterBuf sh o f dt t x).calls.map Prod.fst = [t, t + dt / 2, t + dt / 2, t + dt] := rfl
+    (rk4IterBuf sh o f dt t x).calls.map Prod.fst = [t, t + dt / 2, t + dt / 2, t + dt] := by
+  rw [rk4IterBuf_any]; rfl
 
 theorem rk4IterBuf_input_untouched {V : Type} (sh : Bool) (o : VecOps α V) (f : α → V → V) (dt t : α) (x : V) :
-    (rk4IterBuf sh o f dt t x).xold = x := rfl
+    (rk4IterBuf sh o f dt t x).xold = x := by
+  rw [rk4IterBuf_any]; rfl
 
-/-- **witness of the broken variant**: with a shared work array one step on y' = λy multiplies by
-1 + z + (7/12) z² + z³/6 + z⁴/24 (z = λ·dt) instead of the Taylor polynomial of exp -/
-theorem rk4IterBuf_shared_linear (lam t y dt : α) :
-    (rk4IterBuf true scalarOps (fun _ u => lam * u) dt t y).xnew
+/-- the iterator WITHOUT the private copy is the Runge-Kutta step when the flatten function copies … -/
+theorem rk4IterBufNoCopy_fresh {V : Type} (o : VecOps α V) (f : α → V → V) (dt t : α) (x : V) :
+    rk4IterBufNoCopy false o f dt t x = rk4Iter o f dt t x := rfl
+
+/-- … which GenericModel.flattenX (np.hstack — also for a state list that holds a single 1-D array)
+and Coupler.flattenX (np.concatenate) do -/
+theorem rk4NoCopy_default_flatten {β V : Type} (X : List (Flatten.Item β)) (Xs : List (List (Flatten.Item β)))
+    (o : VecOps α V) (f : α → V → V) (dt t : α) (x : V) :
+    rk4IterBufNoCopy (Flatten.flattenOwnership X).isShared o f dt t x = rk4Iter o f dt t x ∧
+    rk4IterBufNoCopy (Flatten.flattenCOwnership Xs).isShared o f dt t x = rk4Iter o f dt t x := ⟨rfl, rfl⟩
+
+/-- **witness of the unrepaired variant**: without the copy and with a shared work array one step
+on y' = λy multiplies by 1 + z + (7/12) z² + z³/6 + z⁴/24 (z = λ·dt) instead of the Taylor
+polynomial of exp -/
+theorem rk4IterBufNoCopy_shared_linear (lam t y dt : α) :
+    (rk4IterBufNoCopy true scalarOps (fun _ u => lam * u) dt t y).xnew
       = (1 + lam * dt + 7 / 12 * (lam * dt) ^ 2 + (lam * dt) ^ 3 / 6 + (lam * dt) ^ 4 / 24) * y := by
-  simp only [rk4IterBuf, readK, updateX, scalarOps, if_true]
+  simp only [rk4IterBufNoCopy, readK, updateX, scalarOps, if_true]
   ring
 
-/-- the defect of one step against the Runge-Kutta step is exactly z²·y/12: second order locally,
+/-- its defect against the Runge-Kutta step is exactly z²·y/12 per step: second order locally,
 i.e. the method has dropped to FIRST order -/
-theorem rk4IterBuf_shared_defect (lam t y dt : α) :
-    (rk4IterBuf true scalarOps (fun _ u => lam * u) dt t y).xnew
-      - (rk4IterBuf false scalarOps (fun _ u => lam * u) dt t y).xnew = (lam * dt) ^ 2 / 12 * y := by
-  rw [rk4IterBuf_shared_linear, rk4IterBuf_fresh, rk4Iter_eq_rkStep, rk4_linear_test]; ring
+theorem rk4IterBufNoCopy_shared_defect (lam t y dt : α) :
+    (rk4IterBufNoCopy true scalarOps (fun _ u => lam * u) dt t y).xnew
+      - (rk4IterBuf true scalarOps (fun _ u => lam * u) dt t y).xnew = (lam * dt) ^ 2 / 12 * y := by
+  rw [rk4IterBufNoCopy_shared_linear, rk4IterBuf_any, rk4Iter_eq_rkStep, rk4_linear_test]; ring
 
-theorem rk4IterBuf_shared_ne (lam t y dt : α) (hz : lam * dt ≠ 0) (hy : y ≠ 0) :
-    (rk4IterBuf true scalarOps (fun _ u => lam * u) dt t y).xnew
-      ≠ (rk4IterBuf false scalarOps (fun _ u => lam * u) dt t y).xnew := by
+theorem rk4IterBufNoCopy_shared_ne (lam t y dt : α) (hz : lam * dt ≠ 0) (hy : y ≠ 0) :
+    (rk4IterBufNoCopy true scalarOps (fun _ u => lam * u) dt t y).xnew
+      ≠ (rk4IterBuf true scalarOps (fun _ u => lam * u) dt t y).xnew := by
   intro h
-  have := rk4IterBuf_shared_defect lam t y dt
+  have := rk4IterBufNoCopy_shared_defect lam t y dt
   rw [h, sub_self] at this
   have h2 : (lam * dt) ^ 2 * y = 0 := by linarith
   rcases mul_eq_zero.mp h2 with h3 | h3
   · exact hz (pow_eq_zero_iff (by norm_num) |>.mp h3)
   · exact hy h3
 
-/-- on a quadrature y' = g(t) the shared array loses the value at the start of the step:
-weights (0, 5/6, 1/6) on g(t), g(t+dt/2), g(t+dt) instead of Simpson's (1/6, 4/6, 1/6) -/
-theorem rk4IterBuf_shared_quadrature (g : α → α) (t y dt : α) :
-    (rk4IterBuf true scalarOps (fun s _ => g s) dt t y).xnew
+/-- on a quadrature y' = g(t) it loses the value at the start of the step: weights (0, 5/6, 1/6) on
+g(t), g(t+dt/2), g(t+dt) instead of Simpson's (1/6, 4/6, 1/6) -/
+theorem rk4IterBufNoCopy_shared_quadrature (g : α → α) (t y dt : α) :
+    (rk4IterBufNoCopy true scalarOps (fun s _ => g s) dt t y).xnew
       = y + dt * (5 * g (t + dt / 2) + g (t + dt)) / 6 := by
-  simp only [rk4IterBuf, readK, updateX, scalarOps, if_true]
+  simp only [rk4IterBufNoCopy, readK, updateX, scalarOps, if_true]
   ring
 
-/-- … so already y' = 2t, y(0) = 1, one step of 1 gives 13/6·… ≠ 2: not exact on polynomials of degree 1 -/
-theorem rk4IterBuf_shared_not_exact_deg1 :
-    (rk4IterBuf true scalarOps (fun s _ => 2 * s) (1 : α) 0 1).xnew ≠ 2 := by
-  rw [rk4IterBuf_shared_quadrature (fun s => 2 * s)]; norm_num
+/-- … so already y' = 2t, y(0) = 1, one step of 1 does not give 2: not exact on polynomials of degree 1 -/
+theorem rk4IterBufNoCopy_shared_not_exact_deg1 :
+    (rk4IterBufNoCopy true scalarOps (fun s _ => 2 * s) (1 : α) 0 1).xnew ≠ 2 := by
+  rw [rk4IterBufNoCopy_shared_quadrature (fun s => 2 * s)]; norm_num
 
 end buf
 
@@ -552,10 +563,11 @@ example :
 /-- non-vacuity of the hypothesis of `stepXC_eq_stepX`: the quarter format represents 1/4 + 1/4 -/
 example : rndQuarter ((1/4 : ℚ) + 1/4) = 1/4 + 1/4 := by decide +kernel
 
-/-- shared work array on concrete numbers: y' = y, y = 1, dt = 1 gives 11/4 (Runge-Kutta: 65/24) -/
-example : (rk4IterBuf true scalarOps (fun _ u => (1 : ℚ) * u) 1 0 1).xnew = 11 / 4 ∧
-    (rk4IterBuf false scalarOps (fun _ u => (1 : ℚ) * u) 1 0 1).xnew = 65 / 24 := by
-  rw [rk4IterBuf_shared_linear, rk4IterBuf_fresh, rk4Iter_eq_rkStep, rk4_linear_test]; norm_num
+/-- shared work array on concrete numbers: y' = y, y = 1, dt = 1: the code gives 65/24 (Runge-Kutta), the iterator
+without the private copy 67/24 -/
+example : (rk4IterBufNoCopy true scalarOps (fun _ u => (1 : ℚ) * u) 1 0 1).xnew = 67 / 24 ∧
+    (rk4IterBuf true scalarOps (fun _ u => (1 : ℚ) * u) 1 0 1).xnew = 65 / 24 := by
+  rw [rk4IterBufNoCopy_shared_linear, rk4IterBuf_any, rk4Iter_eq_rkStep, rk4_linear_test]; norm_num
 
 /-! ### non-vacuity / concrete values -/
 
